@@ -3,9 +3,11 @@ package props
 import (
 	"fmt"
 	"math/rand/v2"
+	"os"
 	"runtime"
 	"strings"
 	"sync/atomic"
+	"time"
 	"unicode/utf8"
 
 	"github.com/gdamore/tcell/v2"
@@ -186,6 +188,8 @@ func C11(r *core.Run) {
 	}
 	c11pasteFocus(r)
 	c11pipeline(r)
+	c11trickle(r)
+	c11locales(r)
 }
 
 // c11one: one character, whole and split at every byte boundary.
@@ -381,7 +385,7 @@ func c11pipeline(r *core.Run) {
 				ls.tty.Feed(c)
 				atomic.AddInt32(&fed, 1)
 			}
-			ls.tty.Feed([]byte("ζ"))
+			ls.tty.Feed([]byte{0x1d})
 		}()
 		// let the queues fill: wait (in scheduler steps, not time) until the reader is
 		// no longer waiting for input although input is on offer
@@ -398,7 +402,7 @@ func c11pipeline(r *core.Run) {
 				r.Count("pipeline_backpressure_reached", 1)
 			}
 		}
-		got, ok := ls.pollUntilRune('ζ')
+		got, ok := ls.pollUntilRune(0x1d)
 		<-feederDone
 		ls.fini()
 		if !ok {
@@ -416,6 +420,88 @@ func c11pipeline(r *core.Run) {
 				gs = append(gs, e.Rune)
 			}
 			r.Violate("pipeline:text-mangled", fmt.Sprintf("typed %q in %d reads while the application was not polling; delivered %q", string(want), len(chunks), string(gs)), nil)
+		}
+	}
+}
+
+// c11trickle: a four-byte character arriving one byte per read, 20 ms apart
+// (never 50 ms without input, but more than 50 ms in total).
+func c11trickle(r *core.Run) {
+	ti := Pristine("xterm-256color")
+	rounds := r.Pick(8, 100)
+	for k := 0; k < rounds; k++ {
+		ls, err := startScreen(ti, 20, 5, nil)
+		if err != nil {
+			r.Inconclusive(err.Error())
+			return
+		}
+		wait := ls.startPoll(0x1d)
+		rn := rune(0x1f600 + k)
+		b := []byte(string(rn))
+		maxGap := time.Duration(0)
+		last := time.Now()
+		for i := range b {
+			if i > 0 {
+				time.Sleep(20 * time.Millisecond)
+			}
+			ls.tty.Feed(b[i : i+1])
+			if g := time.Since(last); i > 0 && g > maxGap {
+				maxGap = g
+			}
+			last = time.Now()
+		}
+		ls.tty.Feed([]byte{0x1d})
+		got, ok := wait()
+		ls.fini()
+		switch {
+		case !ok:
+			r.Inconclusive("trickle: sentinel not delivered")
+			r.Case("")
+		case maxGap > 40*time.Millisecond:
+			r.Count("trickle_rounds_with_compromised_timing", 1)
+			r.Case("")
+		default:
+			r.Case(fmt.Sprintf("trickle|%d", k))
+			if len(got) != 1 || got[0].T != "key" || got[0].Rune != rn {
+				r.Violate("pipeline:trickle", fmt.Sprintf("%q sent one byte per read, 20 ms apart (largest gap %v): delivered %s", rn, maxGap, evsStr(got)), nil)
+			}
+		}
+	}
+}
+
+// c11locales: the character set a screen selects from the POSIX locale
+// variables (LC_ALL, then LC_CTYPE, then LANG).
+func c11locales(r *core.Run) {
+	defer func() {
+		os.Setenv("LC_ALL", "C.UTF-8")
+		os.Unsetenv("LC_CTYPE")
+		os.Unsetenv("LANG")
+	}()
+	cases := []struct{ all, ctype, lang, want string }{
+		{"en_US.UTF-8", "", "", "UTF-8"}, {"C.UTF-8", "", "", "UTF-8"}, {"POSIX.UTF-8", "", "", "UTF-8"}, {"", "", "C.UTF-8", "UTF-8"},
+		{"C", "", "", "US-ASCII"}, {"POSIX", "", "", "US-ASCII"}, {"", "", "C", "US-ASCII"}, {"en_US", "", "", "UTF-8"}, {"", "", "", "UTF-8"},
+		{"ru_RU.KOI8-R", "", "", "KOI8-R"}, {"zh_CN.GBK", "", "", "GBK"}, {"", "ja_JP.EUC-JP", "en_US.UTF-8", "EUC-JP"},
+		{"de_DE.ISO8859-15@euro", "", "", "ISO8859-15"}, {"", "", "ko_KR.EUC-KR", "EUC-KR"}, {"zh_TW.Big5", "ja_JP.EUC-JP", "en_US.UTF-8", "Big5"},
+	}
+	ti := Pristine("xterm-256color")
+	for _, c := range cases {
+		for k, v := range map[string]string{"LC_ALL": c.all, "LC_CTYPE": c.ctype, "LANG": c.lang} {
+			if v == "" {
+				os.Unsetenv(k)
+			} else {
+				os.Setenv(k, v)
+			}
+		}
+		ls, err := startScreen(ti, 10, 3, nil)
+		if err != nil {
+			r.Violate("locale:init", fmt.Sprintf("LC_ALL=%q LC_CTYPE=%q LANG=%q: Init fails: %v", c.all, c.ctype, c.lang, err), nil)
+			continue
+		}
+		got := ls.s.CharacterSet()
+		ls.fini()
+		r.Case("locale|" + c.all + "|" + c.ctype + "|" + c.lang)
+		if got != c.want {
+			r.Violate("locale:charset", fmt.Sprintf("LC_ALL=%q LC_CTYPE=%q LANG=%q selects character set %q, expected %q", c.all, c.ctype, c.lang, got, c.want), nil)
 		}
 	}
 }
